@@ -202,15 +202,24 @@ class Rng(ModelObject):
         self.sizes = []
 
     def pv_getattr(self, cx, name):
-        if name != "normal":
+        if name not in ("normal", "standard_normal"):
+            # other distributions (uniform, ...) have the required moments only up to rounding of their parameters:
+            # not decidable in exact arithmetic, left to the bounded moment checks
             raise V.Unsupported(f"rng.{name}")
         me = self
 
         def normal(interp, loc=0, scale=1, size=None):
+            if name == "standard_normal":
+                loc, scale, size = 0, 1, (loc if size is None else size)
+            if size is None:
+                raise V.Unsupported("scalar random draw")
             me.draws += 1
             me.sizes.append(size)
             shape = tuple(size) if isinstance(size, (tuple, list)) else (size,)
-            return sym_array(f"xi{me.draws}", shape, "real")
+            xi = sym_array(f"xi{me.draws}", shape, "real")
+            if not V.is_z3(scale) and scale == 1 and not V.is_z3(loc) and loc == 0:
+                return xi
+            return interp.binop("+", loc, interp.binop("*", scale, xi))  # N(loc, scale^2) = loc + scale * N(0, 1)
 
         normal._pyvc_model = True
         return normal
